@@ -178,12 +178,27 @@ int write_srec(Memory *memory, FILE *out, int srec_size)
 
   if (memory->entry_point != 0xffffffff)
   {
-    int checksum = 3 + ((memory->entry_point >> 8) & 0xff) +
-                        (memory->entry_point & 0xff);
+    // S9 carries a 16 bit start address, S8 24 bit and S7 32 bit.
+    const uint32_t entry_point = memory->entry_point;
+    int checksum = ((entry_point >> 24) & 0xff) + ((entry_point >> 16) & 0xff) +
+                   ((entry_point >> 8) & 0xff) + (entry_point & 0xff);
 
-    checksum = (checksum & 0xff) ^ 0xff;
-
-    fprintf(out, "S903%04x%02x\n", memory->entry_point, checksum);
+    if (entry_point <= 0xffff)
+    {
+      checksum = ((checksum + 3) & 0xff) ^ 0xff;
+      fprintf(out, "S903%04x%02x\n", entry_point, checksum);
+    }
+      else
+    if (entry_point <= 0xffffff)
+    {
+      checksum = ((checksum + 4) & 0xff) ^ 0xff;
+      fprintf(out, "S804%06x%02x\n", entry_point, checksum);
+    }
+      else
+    {
+      checksum = ((checksum + 5) & 0xff) ^ 0xff;
+      fprintf(out, "S705%08x%02x\n", entry_point, checksum);
+    }
   }
 
   return 0;
